@@ -1222,6 +1222,8 @@ class FuncTranslator:
                 return Val('(%s / %s)%%Z' % (paren(self.coerce(a, Z)), paren(self.coerce(b, Z))), Z)
             if allz and op is ast.Mod:
                 return Val('(%s mod %s)%%Z' % (paren(self.coerce(a, Z)), paren(self.coerce(b, Z))), Z)
+            if op is ast.Mod:
+                return Val('py_mod %s %s' % (paren(self.coerce(a, Q)), paren(self.coerce(b, Q))), Q)
             both_num = isinstance(a.t, TNum) and isinstance(b.t, TNum)
             sym = {ast.Add: '+', ast.Sub: '-', ast.Mult: '*', ast.Div: '/'}.get(op)
             if sym is None:
